@@ -190,7 +190,8 @@ pub struct Run<'a> {
 	first_seen: BTreeMap<Txid, u32>,
 	pub announced: BTreeMap<OutPoint, Announced>,
 	last_claim: BTreeMap<(usize, OutPoint), LastClaim>,
-	bump_targets: BTreeMap<[u8; 32], u32>,
+	/// claim id -> (last target feerate, outputs the claim spends); forgotten once those outputs are spent on chain
+	bump_targets: BTreeMap<[u8; 32], (u32, Vec<OutPoint>)>,
 	/// transactions a node had rejected at a height (for the stale-parent rule)
 	rejected_at: BTreeMap<Txid, u32>,
 	/// a (node, outpoint) for which both ends had a transaction in the mempool
@@ -198,6 +199,10 @@ pub struct Run<'a> {
 	pub stats: Stats,
 	pub tags: Vec<&'static str>,
 	pub unfinished: bool,
+	/// development aid (env C07_TOLERATE=prefix,prefix): failures of the broadcast-validity oracle whose key
+	/// starts with one of these are recorded as labels instead of ending the case
+	tolerate: Vec<String>,
+	pub tolerated: BTreeSet<String>,
 }
 
 pub fn cold_script(node: usize) -> ScriptBuf {
@@ -245,6 +250,8 @@ impl<'a> Run<'a> {
 			stats: Stats::default(),
 			tags: vec![],
 			unfinished: false,
+			tolerate: std::env::var("C07_TOLERATE").ok().map(|s| s.split(',').filter(|x| !x.is_empty()).map(|x| x.to_string()).collect()).unwrap_or_default(),
+			tolerated: BTreeSet::new(),
 		};
 		// broadcasts during channel establishment are not part of the case
 		r.cur_log = r.sim.log.len();
@@ -331,7 +338,13 @@ impl<'a> Run<'a> {
 					let txid = tx.compute_txid();
 					self.by.entry(txid).or_insert(node);
 					self.first_seen.entry(txid).or_insert(height);
-					self.judge_broadcast(node, &tx, height, &verdict)?;
+					if let Err(f) = self.judge_broadcast(node, &tx, height, &verdict) {
+						if self.tolerate.iter().any(|t| f.key.starts_with(t.as_str())) {
+							self.tolerated.insert(f.key.clone());
+						} else {
+							return Err(f);
+						}
+					}
 					if matches!(verdict, Ok(_) | Err(Reject::MempoolConflict(_))) {
 						self.fee_monotone(node, &tx)?;
 						self.bump_tx_meets_target(node, &tx, &mut pending_bumps)?;
@@ -339,20 +352,24 @@ impl<'a> Run<'a> {
 				},
 				SEvent::Ldk { node, ev: Event::BumpTransaction(b) } => {
 					self.stats.bump_events += 1;
-					let (id, target) = match &b {
-						BumpTransactionEvent::ChannelClose { claim_id, package_target_feerate_sat_per_1000_weight, .. } => (claim_id.0, *package_target_feerate_sat_per_1000_weight),
-						BumpTransactionEvent::HTLCResolution { claim_id, target_feerate_sat_per_1000_weight, .. } => (claim_id.0, *target_feerate_sat_per_1000_weight),
+					let (id, target, ops) = match &b {
+						BumpTransactionEvent::ChannelClose { claim_id, package_target_feerate_sat_per_1000_weight, commitment_tx, .. } => (claim_id.0, *package_target_feerate_sat_per_1000_weight, commitment_tx.input.iter().map(|i| i.previous_output).collect::<Vec<_>>()),
+						BumpTransactionEvent::HTLCResolution { claim_id, target_feerate_sat_per_1000_weight, htlc_descriptors, .. } => (claim_id.0, *target_feerate_sat_per_1000_weight, htlc_descriptors.iter().map(|d| d.outpoint()).collect::<Vec<_>>()),
 					};
+					// a claim whose outputs were all spent on chain is over; the id may be reused by a new claim
+					let chain = &self.sim.chain;
+					self.bump_targets.retain(|_, (_, o)| o.iter().any(|x| chain.is_unspent(x)));
 					// (c) the feerate a claim asks its wallet for never decreases while the claim is pending
-					if let Some(prev) = self.bump_targets.get(&id) {
-						if target < *prev {
+					if let Some((prev, _)) = self.bump_targets.get(&id) {
+						// 2 % tolerance as for (c) in general: LDK re-derives the rate from an integer fee / weight
+						if (target as u64) * 100 < (*prev as u64) * 98 {
 							return Err(fail("bump-target-decreased", format!("node {} BumpTransaction for claim {} asks for {} sat/kw after having asked for {}", node, vcore::hex(&id[..4]), target, prev)));
 						}
 						if target > *prev {
 							self.stats.bump_target_raises += 1;
 						}
 					}
-					self.bump_targets.insert(id, target);
+					self.bump_targets.insert(id, (target, ops));
 					pending_bumps.push((node, b));
 				},
 				SEvent::Ldk { node, ev: Event::SpendableOutputs { outputs, channel_id, .. } } => {
@@ -397,7 +414,14 @@ impl<'a> Run<'a> {
 					self.rejected_at.insert(txid, height);
 					Ok(())
 				} else {
-					Err(fail("broadcast-spends-spent-output", describe(self)).with_key("broadcast/already-spent"))
+					let depth = conf.map(|h| height + 1 - h).unwrap_or(0);
+					let who = match self.by.get(by) {
+						Some(n) if *n == node => "by-self",
+						Some(_) => "by-peer",
+						None => "by-harness",
+					};
+					let key = format!("broadcast/already-spent/{}/{}/{}", self.classify(node, tx), who, if depth >= ANTI_REORG_DELAY { "buried" } else { "recent" });
+					Err(fail("broadcast-spends-spent-output", format!("{} [conflicting spend has {} confirmations]", describe(self), depth)).with_key(key))
 				}
 			},
 			Err(Reject::MissingInput(op)) => {
@@ -409,14 +433,40 @@ impl<'a> Run<'a> {
 					self.rejected_at.insert(txid, height);
 					Ok(())
 				} else {
-					Err(fail("broadcast-spends-unknown-output", describe(self)).with_key("broadcast/missing-input"))
+					let key = format!("broadcast/missing-input/{}", self.classify(node, tx));
+					Err(fail("broadcast-spends-unknown-output", describe(self)).with_key(key))
 				}
 			},
-			Err(Reject::Script(_)) => Err(fail("broadcast-script-invalid", describe(self)).with_key("broadcast/script")),
-			Err(Reject::NonFinal { .. }) => Err(fail("broadcast-non-final", describe(self)).with_key("broadcast/non-final")),
-			Err(Reject::CsvImmature { .. }) => Err(fail("broadcast-csv-immature", describe(self)).with_key("broadcast/csv")),
-			Err(Reject::NegativeFee { .. }) => Err(fail("broadcast-negative-fee", describe(self)).with_key("broadcast/negative-fee")),
+			Err(Reject::Script(_)) => Err(fail("broadcast-script-invalid", describe(self)).with_key(format!("broadcast/script/{}", self.classify(node, tx)))),
+			Err(Reject::NonFinal { .. }) => Err(fail("broadcast-non-final", describe(self)).with_key(format!("broadcast/non-final/{}", self.classify(node, tx)))),
+			Err(Reject::CsvImmature { .. }) => Err(fail("broadcast-csv-immature", describe(self)).with_key(format!("broadcast/csv/{}", self.classify(node, tx)))),
+			Err(Reject::NegativeFee { .. }) => Err(fail("broadcast-negative-fee", describe(self)).with_key(format!("broadcast/negative-fee/{}", self.classify(node, tx)))),
 		}
+	}
+
+	/// what kind of claim a transaction is, relative to the confirmed commitments (for failure keys)
+	fn classify(&self, node: usize, tx: &Transaction) -> String {
+		for i in tx.input.iter() {
+			let op = i.previous_output;
+			if self.sim.chans.iter().any(|c| c.funding_tx.compute_txid() == op.txid) {
+				return "commitment".into();
+			}
+			if let Some(cl) = self.closed.iter().find(|c| c.txid == op.txid) {
+				let side = if node == cl.b { "holder" } else { "counterparty" };
+				if let Some(h) = cl.htlcs.iter().find(|h| h.vout == op.vout) {
+					return format!("{}-htlc-{}", side, if h.offerer == node { "timeout" } else { "preimage" });
+				}
+				if cl.anchor_vouts.contains(&op.vout) {
+					return format!("{}-anchor", side);
+				}
+				return format!("{}-balance-output", side);
+			}
+			// an output of a known commitment that did not confirm
+			if self.commits.contains_key(&op.txid) {
+				return "unconfirmed-commitment-output".into();
+			}
+		}
+		"other".into()
 	}
 
 	fn tx_context(&self, tx: &Transaction) -> String {
@@ -448,6 +498,12 @@ impl<'a> Run<'a> {
 			}
 			// the funding output is spent by the pre-signed commitment only
 			if self.sim.chans.iter().any(|c| c.funding_tx.compute_txid() == op.txid) {
+				continue;
+			}
+			// the child spending a commitment's anchor pays for the package; its own feerate is meaningless
+			// (checked as a package against the BumpTransaction target instead)
+			let is_anchor = self.commits.contains_key(&op.txid) && self.prevout(&op).map(|o| o.value.to_sat() == 330 || is_p2a(&o.script_pubkey)).unwrap_or(false);
+			if is_anchor {
 				continue;
 			}
 			if let Some(prev) = self.last_claim.get(&(node, op)) {
@@ -499,7 +555,7 @@ impl<'a> Run<'a> {
 					}
 				},
 				BumpTransactionEvent::ChannelClose { anchor_descriptor, package_target_feerate_sat_per_1000_weight, commitment_tx, commitment_tx_fee_satoshis, .. } => {
-					if tx.input.iter().any(|i| i.previous_output == anchor_descriptor.outpoint.into_bitcoin_outpoint()) {
+					if tx.input.iter().any(|i| i.previous_output == anchor_descriptor.outpoint) {
 						let pfee = fee + *commitment_tx_fee_satoshis;
 						let pw = weight + commitment_tx.weight().to_wu();
 						if (pfee as u128) * 1000 * 100 < (*package_target_feerate_sat_per_1000_weight as u128) * pw as u128 * 98 {
@@ -599,7 +655,10 @@ impl<'a> Run<'a> {
 		let height = self.sim.chain.height();
 		for cl in self.closed.clone().iter() {
 			for node in [cl.b, cl.c] {
-				let Some(actual) = self.balances(node, cl.chan) else { continue };
+				let Some(mut actual) = self.balances(node, cl.chan) else { continue };
+				// a zero-valued entry (LDK reports its absent balance output as "0 sat awaiting confirmations")
+				// claims nothing and is ignored
+				actual.retain(|b| !matches!(b, Balance::ClaimableAwaitingConfirmations { amount_satoshis: 0, .. }));
 				self.stats.balance_checks += 1;
 				let slots = self.expected_balances(cl, node, height);
 				let mut used = vec![false; slots.len()];
@@ -702,19 +761,31 @@ impl<'a> Run<'a> {
 				self.stats.timeliness_checks += 1;
 				// inbound HTLC whose preimage the monitor was given: a valid claim must be out
 				if self.known.contains_key(&(h.receiver, cl.chan, h.hash)) && !self.node_has_mempool_spend(h.receiver, &op) {
+					let refused = self.last_refused_spend(h.receiver, &op);
+					let why = match &refused {
+						Some((_, Reject::AlreadySpent(o, _))) if *o != op => "claim-aggregated-with-spent-output".to_string(),
+						Some((_, r)) => format!("claim-refused-{}", reject_kind(r)),
+						None => "no-claim".to_string(),
+					};
 					return Err(fail(
 						"inbound-htlc-not-claimed",
-						format!("node {} knows the preimage of the unspent HTLC output {}:{} ({} sat, expiry {}) on the commitment of node {} confirmed at {}, but at height {} it has no valid claim of it in the mempool", h.receiver, cl.txid, h.vout, h.sat(), h.cltv, cl.b, cl.conf, height),
+						format!("node {} knows the preimage of the unspent HTLC output {}:{} ({} sat, expiry {}) on the commitment of node {} confirmed at {}, but at height {} it has no valid claim of it in the mempool (last refused attempt: {:?})", h.receiver, cl.txid, h.vout, h.sat(), h.cltv, cl.b, cl.conf, height, refused),
 					)
-					.with_key(format!("inbound-htlc-not-claimed/{}", if h.receiver == cl.b { "holder" } else { "counterparty" })));
+					.with_key(format!("inbound-htlc-not-claimed/{}/{}", if h.receiver == cl.b { "holder" } else { "counterparty" }, why)));
 				}
 				// outbound HTLC: from its expiry on (a transaction with nLockTime = expiry is final in block expiry+1)
 				if height >= h.cltv && !self.node_has_mempool_spend(h.offerer, &op) {
+					let refused = self.last_refused_spend(h.offerer, &op);
+					let why = match &refused {
+						Some((_, Reject::AlreadySpent(o, _))) if *o != op => "claim-aggregated-with-spent-output".to_string(),
+						Some((_, r)) => format!("claim-refused-{}", reject_kind(r)),
+						None => "no-claim".to_string(),
+					};
 					return Err(fail(
 						"outbound-htlc-not-timed-out",
-						format!("node {} offered the unspent HTLC output {}:{} ({} sat) which expired at {}, commitment of node {} confirmed at {}; at height {} it has no valid timeout claim in the mempool", h.offerer, cl.txid, h.vout, h.sat(), h.cltv, cl.b, cl.conf, height),
+						format!("node {} offered the unspent HTLC output {}:{} ({} sat) which expired at {}, commitment of node {} confirmed at {}; at height {} it has no valid timeout claim in the mempool (last refused attempt: {:?})", h.offerer, cl.txid, h.vout, h.sat(), h.cltv, cl.b, cl.conf, height, refused),
 					)
-					.with_key(format!("outbound-htlc-not-timed-out/{}", if h.offerer == cl.b { "holder" } else { "counterparty" })));
+					.with_key(format!("outbound-htlc-not-timed-out/{}/{}", if h.offerer == cl.b { "holder" } else { "counterparty" }, why)));
 				}
 			}
 		}
@@ -860,6 +931,25 @@ impl<'a> Run<'a> {
 		}
 	}
 
+	/// development aid, see `tolerate`
+	fn soft(&mut self, r: CaseResult) -> CaseResult {
+		match r {
+			Err(f) if self.tolerate.iter().any(|t| f.key.starts_with(t.as_str())) => {
+				self.tolerated.insert(f.key.clone());
+				Ok(())
+			},
+			other => other,
+		}
+	}
+
+	/// the most recent transaction of `node` spending `op` that the consensus simulator refused, and why
+	fn last_refused_spend(&self, node: usize, op: &OutPoint) -> Option<(Txid, Reject)> {
+		self.sim.log.iter().rev().find_map(|(_, e)| match e {
+			SEvent::Broadcast { node: n, tx, verdict: Err(r), .. } if *n == node && !matches!(r, Reject::Duplicate | Reject::MempoolConflict(_)) && tx.input.iter().any(|i| i.previous_output == *op) => Some((tx.compute_txid(), r.clone())),
+			_ => None,
+		})
+	}
+
 	pub fn block(&mut self, incl: &Incl, pump: bool) -> CaseResult {
 		self.prune_orphans();
 		let txs = self.select(incl);
@@ -868,8 +958,10 @@ impl<'a> Run<'a> {
 		self.observe()?;
 		self.process_all_events(pump)?;
 		self.prune_orphans();
-		self.check_balances()?;
-		self.check_timeliness()?;
+		let r = self.check_balances();
+		self.soft(r)?;
+		let r = self.check_timeliness();
+		self.soft(r)?;
 		self.sim.trim();
 		Ok(())
 	}
@@ -971,7 +1063,7 @@ impl<'a> Run<'a> {
 		}
 		for cl in self.closed.iter() {
 			for node in [cl.b, cl.c] {
-				if self.balances(node, cl.chan).map(|b| !b.is_empty()).unwrap_or(false) {
+				if self.balances(node, cl.chan).map(|b| b.iter().any(|x| !matches!(x, Balance::ClaimableAwaitingConfirmations { amount_satoshis: 0, .. }))).unwrap_or(false) {
 					return false;
 				}
 			}
@@ -1011,7 +1103,7 @@ impl<'a> Run<'a> {
 			// balances drained to nothing
 			for node in [cl.b, cl.c] {
 				if let Some(b) = self.balances(node, cl.chan) {
-					if !b.is_empty() {
+					if b.iter().any(|x| !matches!(x, Balance::ClaimableAwaitingConfirmations { amount_satoshis: 0, .. })) {
 						return Err(fail("balances-not-drained", format!("node {} chan {}: everything is resolved on chain but it still reports {:?}", node, cl.chan, b)));
 					}
 				}
@@ -1057,10 +1149,18 @@ impl<'a> Run<'a> {
 					if let Some(k) = known_at {
 						let ready = k.max(cl.conf);
 						if ready + self.case.max_delay as u32 + 1 <= h.cltv {
-							return Err(fail(
+							let refused = self.last_refused_spend(h.receiver, &op);
+							let why = match &refused {
+								Some((_, Reject::AlreadySpent(o, _))) if *o != op => "claim-aggregated-with-spent-output".to_string(),
+								Some((_, r)) => format!("claim-refused-{}", reject_kind(r)),
+								None => "no-refused-claim".to_string(),
+							};
+							let f = fail(
 								"inbound-htlc-lost",
-								format!("chan {}: node {} knew the preimage of HTLC output {} ({} sat, expiry {}) from height {} (commitment confirmed at {}), claims confirm within {} blocks, yet node {} timed it out at height {}", cl.chan, h.receiver, op, h.sat(), h.cltv, k, cl.conf, self.case.max_delay, h.offerer, x),
-							));
+								format!("chan {}: node {} knew the preimage of HTLC output {} ({} sat, expiry {}) from height {} (commitment confirmed at {}), claims confirm within {} blocks, yet node {} timed it out at height {} (last refused claim attempt: {:?})", cl.chan, h.receiver, op, h.sat(), h.cltv, k, cl.conf, self.case.max_delay, h.offerer, x, refused),
+							)
+							.with_key(format!("inbound-htlc-lost/{}/{}", if h.receiver == cl.b { "holder" } else { "counterparty" }, why));
+							self.soft(Err(f))?;
 						}
 					}
 				} else if by == h.receiver {
@@ -1129,7 +1229,9 @@ impl<'a> Run<'a> {
 					}
 					let mut cout = 0u64;
 					for (v, o) in stx.output.iter().enumerate() {
-						if self.is_wallet_script(&o.script_pubkey) {
+						// wallet change is the wallet's; an OP_RETURN output (the bump handler adds an empty one
+						// when there is no change) is provably unspendable, i.e. burned like a fee
+						if self.is_wallet_script(&o.script_pubkey) || o.script_pubkey.is_op_return() {
 							continue;
 						}
 						cout += o.value.to_sat();
@@ -1221,6 +1323,9 @@ impl<'a> Run<'a> {
 		ctx.label_if(st.htlc_won_by_timeout > 0, "htlc-resolved-by-timeout");
 		ctx.label_if(st.sweeps_dust_only > 0, "sweep-all-to-fee");
 		ctx.label(if self.unfinished { "unfinished" } else { "finished" });
+		for t in self.tolerated.iter() {
+			ctx.label(&format!("tolerated:{}", t));
+		}
 	}
 
 	pub fn nontrivial(&self) -> bool {
